@@ -1,6 +1,7 @@
 package openapiv3
 
 import (
+	v3 "github.com/pb33f/libopenapi/datamodel/high/v3"
 	"google.golang.org/protobuf/compiler/protogen"
 )
 
@@ -13,13 +14,24 @@ func VerifRoute(svc *protogen.Service, m *protogen.Method) (verb, path string, p
 // VerifParams returns the names of the path and query parameters the OpenAPI
 // generator declares for a method.
 func VerifParams(svc *protogen.Service, m *protogen.Method) (path, query []string) {
+	// the parameters of the operation the real processMethod publishes for m
 	g := NewGenerator(FormatYAML)
-	i := extractMethodHTTPInfo(svc, m)
-	for _, p := range g.buildPathParameters(m, i.pathParams) {
-		path = append(path, p.Name)
-	}
-	for _, p := range g.buildQueryParameters(m) {
-		query = append(query, p.Name)
+	g.processMethod(svc, m)
+	for pair := g.doc.Paths.PathItems.First(); pair != nil; pair = pair.Next() {
+		pi := pair.Value()
+		for _, op := range []*v3.Operation{pi.Get, pi.Post, pi.Put, pi.Delete, pi.Patch} {
+			if op == nil {
+				continue
+			}
+			for _, p := range op.Parameters {
+				switch p.In {
+				case "path":
+					path = append(path, p.Name)
+				case "query":
+					query = append(query, p.Name)
+				}
+			}
+		}
 	}
 	return
 }
